@@ -1,8 +1,11 @@
-import MiniconfVerif.Lemmas.Walk
+import MiniconfVerif.Lemmas.WalkStruct
 
 /-! # C02 — every by-key operation classifies a key as the documented top-down walk does
-(first instalment: the per-node step order as equations of the walk; the global
-`walk = refWalk` theorem is being added, see DESIGN.md §7 C02) -/
+
+Model: `Tree.walk` (Model/Tree.lean) is the by-key access of `TreeSerialize`, `TreeDeserialize`
+and `TreeAny` on a type *with its runtime state*; `Schema.traverse` on `Tree.erase` is the
+type-level `traverse_by_key`.  The per-node step order is stated as equations of the walk;
+`one_walk` is the global statement. -/
 namespace MiniconfVerif.C02
 open MiniconfVerif
 
@@ -36,7 +39,51 @@ theorem flatten_adds_no_depth (io : Io) (op : Op) (lk : Lookup) (a : Attrs) (t :
     (Tree.node true none lk [(a, t)] |>.walk io op ks).res = (Tree.walk.goFld io op [(a, t)] 0 ks).1.res := by
   simp [Tree.walk]
 
+/-- **One walk for all five operations.** For every well-formed tree in every runtime state,
+every operation (serialize, deserialize, immutable any, mutable any), every (de)serializer
+behaviour and every key source: the result either is pre-empted by something that depends on
+the runtime state or the value (absent variant / closed container, denied or failing
+accessor, (de)serialization or validation failure), or it is exactly what the type-level
+traversal of the erased type reports for that key — the same `TooShort`/`NotFound`/`TooLong`
+with the same depth, or a reached leaf. -/
+theorem one_walk (io : Io) (op : Op) (t : Tree) (ks : KeySrc) (h : t.WF) :
+    Agree (t.walk io op ks).res (t.erase.traverse cb0 ks ()).1 :=
+  walk_agree io op t ks h
+
+/-- hence any two operations (with any codecs) that are not pre-empted report the same
+structural outcome, and it does not depend on the runtime state: two trees of the same
+type in different states agree as well -/
+theorem operations_agree (io io' : Io) (op op' : Op) (t t' : Tree) (ks : KeySrc) (h : t.WF) (h' : t'.WF)
+    (he : t.erase = t'.erase)
+    (hp : (t.walk io op ks).res.preempt = false) (hp' : (t'.walk io' op' ks).res.preempt = false) :
+    (t.walk io op ks).res = (t'.walk io' op' ks).res ∨
+      (∃ d d', (t.walk io op ks).res = .ok d ∧ (t'.walk io' op' ks).res = .ok d') := by
+  have h1 := walk_agree io op t ks h
+  have h2 := walk_agree io' op' t' ks h'
+  rw [← he] at h2
+  rcases h1 with h1 | h1 | ⟨d1, e1, h1, h1'⟩
+  · rw [hp] at h1; cases h1
+  · rcases h2 with h2 | h2 | ⟨d2, e2, h2, h2'⟩
+    · rw [hp'] at h2; cases h2
+    · left; rw [h1, h2]
+    · right; exact ⟨e2, d2, by rw [h1, h2'], h2⟩
+  · rcases h2 with h2 | h2 | ⟨d2, e2, h2, _⟩
+    · rw [hp'] at h2; cases h2
+    · right; exact ⟨d1, e1, h1, by rw [h2, h1']⟩
+    · right; exact ⟨d1, d2, h1, h2⟩
+
+/-- every index handed on by a key source is within the node's children
+(so no container impl can index out of bounds) -/
+theorem indices_in_range (ks ks' : KeySrc) (lk : Lookup) (i : Nat) (h : ks.next lk = .ok (i, ks')) : i < lk.len :=
+  next_lt ks lk i ks' h
+
 /-! ## non-vacuity -/
+def exT : Tree := .node false (some (some 1)) (.named ["a", "b"])
+  [({}, .leaf (.leaf (.int false 8)) (.int 1)), ({}, .gate .option true (.array [.leaf (.leaf .bool) (.bool true)]))]
+example : exT.WF := by simp [exT, Tree.WF, Tree.WF.wfFs, Tree.WF.wfArr, Lookup.len]
+example : (exT.walk ⟨fun _ _ => true, fun _ => none⟩ .ser (.list [.str "b".toList, .int 5])).res = .trav (.absent 1) := by
+  decide +kernel
+example : (exT.erase.traverse cb0 (.list [.str "b".toList, .int 5]) ()).1 = .trav (.notFound 2) := by decide +kernel
 example : (KeySrc.list [Key.str "x".toList]).finalize = .error (.tooLong 0) := rfl
 example : gateErr .option .ser true = some (.absent 0) := rfl
 
